@@ -619,6 +619,8 @@ def classify_rejection(run, rel):
     active request / a response of a client port that was dropped earlier in the run."""
     dead = {r["c"] for r in run[:rel] if r.get("k") == "op" and r["a"] == "DropClient" and r["r"] == "ok"}
     bad = run[rel - 1] if 0 < rel <= len(run) else {}
+    if bad.get("k") in ("call", "ret"):
+        return f"reqres:unexplained-concurrent:{bad['a']}:{bad['r']}"
     if bad.get("k") == "op":
         if bad["a"] == "ReceiveResponse" and bad["r"] == "some" and bad["pc"] in dead and bad["pc"] != bad["c"]:
             return "reqres:misroute-dead-client-slot-reuse"
@@ -651,14 +653,24 @@ def report_verdict(ctx, v, what, kd_filter):
             run, rel = vp.run_containing(recs, v.pos)
             sig = classify_rejection(run, rel)
             hist = [fmt_op(r) for r in run[1:rel]]
+            replay = {"config": driver_cfg(v.cfg), "chunks": {"nreq": v.cfg["nreq"], "nresp": v.cfg["nresp"]},
+                      "program": [{k: r[k] for k in ("a", "c", "s", "n", "j", "h")} for r in run[1:rel]
+                                  if r.get("k") == "op" and r["a"] != "Skip"],
+                      "history": hist, "first_unexplained": v.record, "invariant": v.invariant}
+            if run[0].get("conc"):
+                # concurrent execution: the program (prefix, two thread programs, suffix) and the schedule of the run
+                end = next((r for r in run if r.get("k") == "end"), {})
+                pfile = v.trace.replace(os.sep + "traces" + os.sep, os.sep + "progs" + os.sep)
+                prog = next((p for p in (read_progs(pfile)) if p.get("name") == run[0].get("prog")), None)
+                replay["history"] = [fmt_op(r) for r in run[1:] if r.get("k") != "end"]
+                replay["conc_program"] = dict(prog, mode="replay", sched=end.get("sched", "")) if prog else None
+                replay["schedule"] = end.get("sched")
+                del replay["program"]
             report(ctx, vp.Violation(
-                f"{what} [{key(v.cfg)}]: the recorded history is not explainable by ReqRes.tla; first unexplained "
+                f"{what} [{key(v.cfg)}]: the recorded history is not explainable by "
+                f"{'ReqResConcTrace.tla' if run[0].get('conc') else 'ReqRes.tla'}; first unexplained "
                 f"event #{rel - 1} of the run: {fmt_op(run[rel - 1])}",
-                replay={"config": driver_cfg(v.cfg), "chunks": {"nreq": v.cfg["nreq"], "nresp": v.cfg["nresp"]},
-                        "program": [{k: r[k] for k in ("a", "c", "s", "n", "j", "h")} for r in run[1:rel]
-                                    if r.get("k") == "op" and r["a"] != "Skip"],
-                        "history": hist, "first_unexplained": v.record, "invariant": v.invariant},
-                signature=sig))
+                replay=replay, signature=sig))
             # the runs before the rejected one were explained
             ctx.traces_validated += len([r for r in recs[:v.pos] if r.get("k") == "reset"]) - 1
         else:
@@ -680,6 +692,13 @@ def report_verdict(ctx, v, what, kd_filter):
         else:
             ctx.note(f"{what} [{key(v.cfg)}]: runs went through the known-defect shape '{tag}' "
                      f"(reported by the check of the property it belongs to)")
+
+
+def read_progs(path):
+    try:
+        return vp.read_ndjson(path)
+    except OSError:
+        return []
 
 
 def require_counts(summary, needed, what):
